@@ -43,6 +43,20 @@ CHECKS = {
         "Trusts vlib/exprs.py; logs compared modulo statement order inside "
         "the guard group / late group of one element activation.",
         "DESIGN.md 3/C04"),
+    "C02": (
+        "exploration",
+        "Hypothesis site x value generation + metamorphic structure "
+        "comparison (independent reader) + un-escape round trip",
+        "Templates of sentinel-bracketed insertion sites (25 kinds covering "
+        "every site class the property lists) are rendered with hostile "
+        "values of eight classes; every inserted region is cut out exactly "
+        "and must be free of raw markup characters and of its attribute's "
+        "quote, must un-escape to the value's string form, and the document "
+        "structure seen by an independent reader must equal that of the same "
+        "template rendered with a harmless value; opt-out sites must deliver "
+        "the value verbatim.",
+        "Trusts html.unescape and the small reader in vlib/reader.py.",
+        "DESIGN.md 3/C02"),
     "C03": (
         "exploration",
         "Hypothesis grammar-based generation + round-trip/identity oracle; "
